@@ -576,7 +576,13 @@ type Failure struct {
 }
 
 // runCaseA builds the corpus in `layout` and checks every variant x query form.
-func runCaseA(c *core.Ctx, cs *caseA, facets []FacetSpec, layout int, forms []int, nvar int) (int, *Failure, error) {
+func runCaseA(c *core.Ctx, cs *caseA, allFacets []FacetSpec, layout int, forms []int, nvar int, rot int) (int, *Failure, error) {
+	var lightFacets []FacetSpec
+	for _, fs := range allFacets {
+		if fs.Size == 1 || fs.Size == 3 {
+			lightFacets = append(lightFacets, fs)
+		}
+	}
 	idx, err := buildIndex(encA, layout, cs.Docs)
 	if err != nil {
 		return 0, nil, err
@@ -592,6 +598,10 @@ func runCaseA(c *core.Ctx, cs *caseA, facets []FacetSpec, layout int, forms []in
 	for _, form := range forms {
 		for vi := 0; vi < nvar; vi++ {
 			v := variants[vi]
+			facets := lightFacets
+			if (vi+rot+form)%4 == 0 {
+				facets = allFacets // every facet size at once on a rotating quarter of the variants
+			}
 			req, err := newRequest(encA, matchQuery(form, cs.Docs), v, facets, (form+vi)%2 == 0)
 			if err != nil {
 				return evals, nil, err
@@ -659,7 +669,7 @@ func engineA(c *core.Ctx) error {
 				layouts := []int{[]int{0, 2, 4}[j.n%3], []int{1, 3}[j.n%2]}
 				forms := []int{j.n % nQueryForms, (j.n/nQueryForms + 1 + j.n) % nQueryForms}
 				for _, l := range layouts {
-					n, fail, err := runCaseA(c, j.cs, facets, l, forms, nvar)
+					n, fail, err := runCaseA(c, j.cs, facets, l, forms, nvar, j.n)
 					c.Eval(n)
 					if err != nil {
 						mu.Lock()
@@ -1008,7 +1018,7 @@ func run(c *core.Ctx) error {
 	c.Assume("match sets are known by construction of the query (flag / tag terms); a query returning another Total makes the run inconclusive, not a violation of C10")
 
 	var wg sync.WaitGroup
-	only := os.Getenv("VERIF_C10_ONLY") // development knob: A | B | M
+	only := os.Getenv("VERIF_C10_ONLY") // development knob: any of the letters A B M
 	// 1. the model decides
 	type mc struct {
 		cfg     string
@@ -1018,10 +1028,10 @@ func run(c *core.Ctx) error {
 	if c.Quick() {
 		cfgs = []mc{{"Facets_mc_quick.cfg", 4}, {"Facets_mc_4docs.cfg", 2}, {"Facets_mc_merge.cfg", 2}}
 	} else {
-		cfgs = []mc{{"Facets_mc_thorough.cfg", 6}, {"Facets_mc_quick.cfg", 2}, {"Facets_mc_4docs.cfg", 2}, {"Facets_mc_merge.cfg", 2}}
+		cfgs = []mc{{"Facets_mc_thorough.cfg", 6}, {"Facets_mc_pages.cfg", 2}, {"Facets_mc_4docs.cfg", 1}, {"Facets_mc_merge.cfg", 1}, {"Facets_mc_merge3.cfg", 2}}
 	}
 	for _, m := range cfgs {
-		if only != "" && only != "M" {
+		if only != "" && !strings.Contains(only, "M") {
 			break
 		}
 		wg.Add(1)
@@ -1032,11 +1042,11 @@ func run(c *core.Ctx) error {
 	}
 	// 2. the code is bound
 	var errA, errB error
-	if only == "" || only == "A" {
+	if only == "" || strings.Contains(only, "A") {
 		wg.Add(1)
 		go func() { defer wg.Done(); errA = engineA(c) }()
 	}
-	if only == "" || only == "B" {
+	if only == "" || strings.Contains(only, "B") {
 		wg.Add(1)
 		go func() { defer wg.Done(); errB = engineB(c) }()
 	}
